@@ -819,3 +819,86 @@ def stream_overwrite_problems(repo: Repo, funcs: Iterable[FuncInfo]) -> Tuple[Li
                                  'overwrites that content instead of following it -- seek(0, 2) after creating it, or create it '
                                  'empty and write the first content' % (cfi.qualname, place, ast.unparse(how)[:60], hit))
     return sorted(set(probs)), n_sites
+
+
+# --------------------------------------------------------------------------- one object read in two phases (eager call, lazy iteration)
+
+def _own_nodes(fnode):
+    """nodes of a function body that run when the function runs (nested functions, lambdas and the lazy parts of generator
+    expressions excluded)"""
+    stack = list(fnode.body)
+    while stack:
+        n = stack.pop()
+        if isinstance(n, (ast.FunctionDef, ast.AsyncFunctionDef, ast.Lambda, ast.ClassDef)):
+            continue
+        if isinstance(n, ast.GeneratorExp):
+            # only the first iterable is evaluated where the expression stands
+            stack.append(n.generators[0].iter)
+            continue
+        yield n
+        stack.extend(ast.iter_child_nodes(n))
+
+
+def _lazy_nodes_of_genexp(g: ast.GeneratorExp):
+    for part in [g.elt] + [c for gen in g.generators for c in gen.ifs] + [gen.iter for gen in g.generators[1:]]:
+        for n in ast.walk(part):
+            yield n
+
+
+def phase_split_problems(raw_repo: Repo, fi: FuncInfo, state_attrs: Optional[Set[str]] = None) -> Tuple[List[str], int]:
+    """``fi`` (as written, not normalised) produces an iterator over an object's state.  Either it is a generator function --
+    nothing runs before the first item is pulled, all reads of ``self`` happen while the items are pulled -- or it is a plain
+    function that reads what it needs at the call and hands values to whatever lazy part it returns.  Mixed is wrong: a plain
+    function that reads part of ``self`` at the call and returns a generator (a helper generator function, a generator
+    expression) that reads ``self`` again when pulled describes two moments of an object the caller may change in between.
+    -> (problems, number of lazy parts examined)"""
+    fnode = fi.node
+    own = list(_own_nodes(fnode))
+    if any(isinstance(n, (ast.Yield, ast.YieldFrom)) for n in own):
+        return [], 0
+
+    def self_reads(nodes, self_name='self'):
+        out = {}
+        for n in nodes:
+            if isinstance(n, ast.Attribute) and isinstance(n.value, ast.Name) and n.value.id == self_name and isinstance(n.ctx, ast.Load):
+                m_ = fi.cls.find_method(n.attr) if fi.cls is not None else None
+                if m_ is not None and m_.kind != 'property':
+                    continue
+                if state_attrs is not None and n.attr not in state_attrs:
+                    continue
+                out.setdefault(n.attr, getattr(n, 'lineno', 0))
+        return out
+    eager = self_reads(own)
+    lazy = {}
+    n_lazy = 0
+    for n in own:
+        if isinstance(n, ast.GeneratorExp):
+            n_lazy += 1
+            for a, ln in self_reads(_lazy_nodes_of_genexp(n)).items():
+                lazy.setdefault(a, ('a generator expression', ln))
+        if isinstance(n, ast.Call):
+            g = None
+            fn = n.func
+            if isinstance(fn, ast.Attribute) and isinstance(fn.value, ast.Name) and fn.value.id == 'self' and fi.cls is not None:
+                g = fi.cls.find_method(fn.attr)
+            elif isinstance(fn, ast.Name):
+                g = fi.module.functions.get(fn.id)
+            if g is None or g.node is fnode:
+                continue
+            gown = list(_own_nodes(g.node))
+            if not any(isinstance(x, (ast.Yield, ast.YieldFrom)) for x in gown):
+                continue
+            n_lazy += 1
+            sname = g.params[0] if g.params and g.cls is not None and g.kind == 'method' else None
+            if sname is None:
+                continue
+            for a, ln in self_reads(gown, sname).items():
+                lazy.setdefault(a, ('the generator %s' % g.qualname, ln))
+    probs = []
+    if eager and lazy:
+        a0 = sorted(lazy)[0]
+        probs.append('%s reads self.%s at the call (line %d) and returns %s, which reads self.%s when its items are pulled (line %d): '
+                     'the object may be changed between the two moments (it is handed to another thread that pulls later), so the '
+                     'parts of one message come from two states of it -- pass the value in as an argument, or read everything lazily'
+                     % (fi.qualname, sorted(eager)[0], eager[sorted(eager)[0]], lazy[a0][0], a0, lazy[a0][1]))
+    return probs, n_lazy
